@@ -36,11 +36,19 @@ class Canaries:
 
 
 # slots whose text is meaningful at run time: the generated string constant must equal the document text
-RUNTIME_SLOTS = {
-    "Schema.properties.key@model", "Schema.properties.key@const", "Schema.properties.key@nested", "Parameter.name@query", "Parameter.name@header", "Parameter.name@cookie",
-    "Schema.enum.item@model-prop", "Schema.enum.item@component", "Schema.enum.item@param", "Schema.const@prop", "Schema.default@prop-string", "Schema.default@param-string",
-    "OpenAPI.paths.key", "RequestBody.content.key@param",
-}
+_RUNTIME_FIELDS = ("Schema.properties.key", "Parameter.name", "Schema.enum.item", "Schema.const", "Schema.default", "OpenAPI.paths.key", "RequestBody.content.key")
+
+
+def is_runtime(label: str) -> bool:
+    return label.split("@")[0] in _RUNTIME_FIELDS and label != "Parameter.name@path"
+
+
+class _Runtime:
+    def __contains__(self, label):
+        return is_runtime(label)
+
+
+RUNTIME_SLOTS = _Runtime()
 
 
 def _ref(name):
@@ -49,6 +57,93 @@ def _ref(name):
 
 def build(shape: str, C):
     return _build_a(C) if shape == "A" else _build_b(C)
+
+
+
+def _shape_schemas(C):
+    """One named property per schema SHAPE that takes a different path through property_from_data / _process_properties, plus pairs of names
+    that collide after snake-casing (the raw-name fallback PythonIdentifier(skip_snake_case=True)). The partner of a colliding name is
+    the same text followed by '_' (same snake_case image, different wire name)."""
+    K = lambda pos: C("Schema.properties.key@" + pos)
+    tgt, enm = _ref("ShapeTarget"), _ref("ShapeEnum")
+    col, colref = K("collide"), K("collide-ref")
+    inherited = K("inherited")
+    reqref = K("ref-model-required")
+    return {
+        "ShapeTarget": {"type": "object", "properties": {inherited: {"type": "string"}}},
+        "ShapeEnum": {"type": "string", "enum": ["a", "b"]},
+        "Shapes": {
+            "type": "object",
+            "required": [reqref],
+            "properties": {
+                K("inline-object"): {"type": "object", "description": C("Schema.description@inline-object-prop"), "properties": {"i": {"type": "integer"}}},
+                K("inline-enum"): {"type": "string", "enum": ["a", "b"]},
+                K("inline-int-enum"): {"type": "integer", "enum": [1, 2]},
+                K("ref-model"): tgt,
+                reqref: tgt,
+                K("ref-enum"): enm,
+                K("allof-ref"): {"allOf": [tgt]},
+                K("allof-ref-enum"): {"allOf": [enm], "description": C("Schema.description@allof-ref-enum")},
+                K("oneof-ref"): {"oneOf": [tgt]},
+                K("anyof-ref-enum"): {"anyOf": [enm]},
+                K("union"): {"oneOf": [tgt, {"type": "string"}]},
+                K("union-enums"): {"anyOf": [enm, {"type": "integer", "enum": [1, 2]}]},
+                K("array-ref"): {"type": "array", "items": tgt},
+                K("array-ref-enum"): {"type": "array", "items": enm},
+                K("array-inline-object"): {"type": "array", "items": {"type": "object", "title": C("Schema.title@items-object"), "description": C("Schema.description@items-object"),
+                                                                       "properties": {K("items-object-prop"): {"type": "string"}}}},
+                K("array-inline-enum"): {"type": "array", "items": {"type": "string", "enum": [C("Schema.enum.item@items"), "b"]}},
+                K("allof-merge"): {"allOf": [{"type": "string"}, {"description": C("Schema.description@allof-merge")}]},
+                K("date"): {"type": "string", "format": "date"},
+                K("file"): {"type": "string", "format": "binary"},
+                K("any"): {},
+                K("type-list"): {"type": ["string", "null"]},
+            },
+            "additionalProperties": {"type": "object", "title": C("Schema.title@additional-object"), "description": C("Schema.description@additional-object"),
+                                     "properties": {K("additional-object-prop"): {"type": "integer"}}},
+        },
+        "ShapesRefAdditional": {"type": "object", "additionalProperties": tgt},
+        "ShapesAllOf": {"allOf": [tgt, {"type": "object", "properties": {K("allof-member"): {"type": "string"}, K("allof-member-ref"): enm}}]},
+        "Collide": {"type": "object", "required": [colref], "properties": {col: {"type": "string"}, col + "_": {"type": "string"}, colref: enm, colref + "_": {"type": "integer"}}},
+    }
+
+
+def _shape_paths(C):
+    P = lambda pos: C("Parameter.name@" + pos)
+    enm, tgt = _ref("ShapeEnum"), _ref("ShapeTarget")
+    params = []
+    for loc in ("query", "header", "cookie"):
+        params += [
+            {"name": P(loc + "-inline-enum"), "in": loc, "schema": {"type": "string", "enum": ["a", "b"]}},
+            {"name": P(loc + "-ref-enum"), "in": loc, "required": loc == "header", "schema": enm},
+            {"name": P(loc + "-allof-ref-enum"), "in": loc, "schema": {"allOf": [enm]}},
+            {"name": P(loc + "-int"), "in": loc, "schema": {"type": "integer"}},
+        ]
+        col = P(loc + "-collide")
+        params += [{"name": col, "in": loc, "schema": {"type": "string"}}, {"name": col + "_", "in": loc, "schema": {"type": "string"}}]
+    params += [
+        {"name": P("query-ref-model"), "in": "query", "schema": tgt},
+        {"name": P("query-array-ref-enum"), "in": "query", "schema": {"type": "array", "items": enm}},
+        {"name": P("query-array-inline"), "in": "query", "schema": {"type": "array", "items": {"type": "string"}}},
+        {"name": P("query-union"), "in": "query", "schema": {"oneOf": [{"type": "string"}, {"type": "integer"}]}},
+        {"name": P("query-date"), "in": "query", "schema": {"type": "string", "format": "date"}},
+        {"$ref": "#/components/parameters/SharedShape"},
+    ]
+    pathname = P("path")
+    pathenum = P("path-ref-enum")
+    ok = {"200": {"description": "ok"}}
+    return {
+        "/shapes": {
+            "parameters": [{"name": P("pathitem-query"), "in": "query", "schema": {"type": "string"}},
+                           {"name": P("pathitem-header-ref-enum"), "in": "header", "schema": enm}],
+            "get": {"operationId": "shapesOp", "tags": ["shapes"], "parameters": params, "responses": ok},
+        },
+        # path-parameter names are validated against the path template ([a-zA-Z_-][a-zA-Z0-9_-]*): one endpoint per slot, nothing else in it
+        "/pathshape/{" + pathname + "}": {"get": {"operationId": "pathShapeOne", "tags": ["shapes"], "responses": ok,
+                                                   "parameters": [{"name": pathname, "in": "path", "required": True, "schema": {"type": "string"}}]}},
+        "/pathshapes/{" + pathenum + "}": {"get": {"operationId": "pathShapeTwo", "tags": ["shapes"], "responses": ok,
+                                                    "parameters": [{"name": pathenum, "in": "path", "required": True, "schema": enm}]}},
+    }
 
 
 def _build_a(C):
@@ -98,6 +193,7 @@ def _build_a(C):
                      "discriminator": {"propertyName": C("Discriminator.propertyName"), "mapping": {C("Discriminator.mapping.key"): C("Discriminator.mapping.value")}}},
         "IntEnum": {"type": "integer", "enum": [1, 2], "description": C("Schema.description@int-enum")},
         enum2_name: {"type": "string", "enum": ["m", "n"]},
+        **_shape_schemas(C),
         C("Components.schemas.key@model"): {"type": "object", "properties": {"y": {"type": "string", "enum": ["m", "n"]}, "z": {"type": "object", "properties": {"w": {"type": "integer"}}}}},
     }
     op = {
@@ -116,6 +212,8 @@ def _build_a(C):
             {"name": C("Parameter.name@cookie"), "in": "cookie", "required": True, "description": C("Parameter.description@cookie"), "schema": {"type": "string"}},
             {"name": "qe", "in": "query", "schema": {"type": "string", "enum": [C("Schema.enum.item@param"), "zz"]}},
             {"name": "qm", "in": "query", "schema": _ref(other_name)},
+            {"name": "qenum", "in": "query", "schema": _ref(enum_name)},
+            {"name": "qenumtwo", "in": "query", "schema": _ref(enum2_name)},
         ],
         "requestBody": {"description": C("RequestBody.description"),
                         "content": {"application/json; a=" + C("RequestBody.content.key@param"): {"schema": _ref(model_name), "example": C("MediaType.example"),
@@ -137,11 +235,13 @@ def _build_a(C):
         "tags": [{"name": tag, "description": C("Tag.description"), "externalDocs": {"url": C("ExternalDocumentation.url@tag")}}, {"name": C("Tag.name@unused")}],
         "externalDocs": {"url": C("ExternalDocumentation.url@root"), "description": C("ExternalDocumentation.description@root")},
         "paths": {"/p/{pp}/" + C("OpenAPI.paths.key"): {"summary": C("PathItem.summary"), "description": C("PathItem.description"), "post": op},
+                  **_shape_paths(C),
                   "/" + C("OpenAPI.paths.key@noparams"): {"post": {"tags": [C("Operation.tags.item@second")], "operationId": C("Operation.operationId@second"),
                                                           "requestBody": {"content": {"application/json": {"schema": {"type": "object", "properties": {"q": {"type": "string"}}}}}},
                                                           "responses": {"200": {"description": C("Response.description@second"),
                                                                                 "content": {"application/json": {"schema": {"type": "array", "items": _ref(model_name)}}}}}}}},
         "components": {"schemas": schemas,
+                       "parameters": {"SharedShape": {"name": C("Parameter.name@component"), "in": "query", "schema": {"type": "string"}}},
                        "securitySchemes": {sec_name: {"type": "apiKey", "name": C("SecurityScheme.name"), "in": "header", "description": C("SecurityScheme.description"),
                                                       "scheme": C("SecurityScheme.scheme"), "bearerFormat": C("SecurityScheme.bearerFormat"), "openIdConnectUrl": C("SecurityScheme.openIdConnectUrl")},
                                            "oa": {"type": "oauth2", "flows": {"implicit": {"authorizationUrl": C("OAuthFlow.authorizationUrl"), "tokenUrl": C("OAuthFlow.tokenUrl"),
@@ -155,8 +255,14 @@ def _build_b(C):
     enum_name = C("Components.schemas.key@enum")
     pname = C("Schema.properties.key@model")
     tag = C("Operation.tags.item")
+    bcol = C("Schema.properties.key@collide")
+    hcol = C("Parameter.name@header-collide")
     schemas = {
-        "Zed": {"type": "object", "properties": {"only": _ref(model_name), "en": _ref(enum_name)}},
+        "Zed": {"type": "object", "required": [bcol + "_"],
+                "properties": {C("Schema.properties.key@ref-model"): _ref(model_name), C("Schema.properties.key@ref-enum"): _ref(enum_name),
+                               C("Schema.properties.key@allof-ref"): {"allOf": [_ref(model_name)]},
+                               C("Schema.properties.key@array-ref-enum"): {"type": "array", "items": _ref(enum_name)},
+                               bcol + "_": {"type": "integer"}, bcol: {"type": "string"}}},
         enum_name: {"type": "string", "enum": ["first", C("Schema.enum.item@component"), "third"], "description": C("Schema.description@enum")},
         model_name: {
             "type": "object", "description": C("Schema.description@model"), "title": C("Schema.title@model"),
@@ -185,6 +291,9 @@ def _build_b(C):
                                    {"name": C("Parameter.name@query"), "in": "query", "required": True, "description": C("Parameter.description@query"),
                                     "schema": {"type": "string", "default": C("Schema.default@param-string")}},
                                    {"name": C("Parameter.name@cookie"), "in": "cookie", "schema": {"type": "string"}},
+                                   {"name": C("Parameter.name@query-ref-enum"), "in": "query", "required": True, "schema": _ref(enum_name)},
+                                   {"name": C("Parameter.name@cookie-allof-ref-enum"), "in": "cookie", "schema": {"allOf": [_ref(enum_name)]}},
+                                   {"name": hcol + "_", "in": "header", "schema": {"type": "integer"}}, {"name": hcol, "in": "header", "required": True, "schema": {"type": "string"}},
                                    {"name": "qq", "in": "query", "schema": {"type": "array", "items": {"type": "string", "enum": ["u", C("Schema.enum.item@param")]}}}],
                     "requestBody": {"content": {"application/json": {"schema": _ref(model_name)},
                                                 "multipart/form-data; c=" + C("RequestBody.content.key@param"): {"schema": {"type": "object", "properties": {"f": {"type": "string", "format": "binary"}}}}}},
@@ -447,6 +556,8 @@ def classify_sanitiser(text: str, off: int) -> str:
         return "esc"
     if tail.startswith(" Yy\"'kw"):
         return "none"
+    if can.islower() and tail.startswith(" Yykw"):
+        return "sanitize"      # PythonIdentifier(skip_snake_case=True): symbols stripped, case and delimiters kept
     if can.islower() and tail.startswith("_yykw"):
         return "snake"
     if can[0].isupper() and can[1:].islower() and tail.startswith("Yykw"):
@@ -475,12 +586,18 @@ def site_table(shape: str, variants=None):
         n2 = {norm_path(p): p for p in f2}
         n3 = {norm_path(p): p for p in f3}
         aligned = len(n2) == len(f2) and len(n3) == len(f3)
+        # slots whose text with specials never reaches the output and is answered with a diagnostic: validated ("rejects")
+        all2 = ("\n".join(f2) + "\n" + "\n".join(f2.values())).lower()
+        rejected = {c for c in c1.by_canary if c not in all2} if len(d2) > len(d1) else set()
         for path, src in f1.items():
             kind = strip_pkg(file_kind(path))
+            file_rejected = any(m.group().lower() in rejected for m in CAN_RE.finditer(path + "\n" + src))
             for m in CAN_RE.finditer(path):
                 # path components: sanitiser from probe 2's name of the same file
                 p2 = n2.get(path)
-                san = "unknown"
+                if p2 is None and file_rejected and m.group().lower() not in rejected:
+                    continue      # the file exists only because of a validated slot; the other components are classified through sibling files
+                san = "rejects" if m.group().lower() in rejected else "unknown"
                 if aligned and p2 is not None:
                     ms = [x for x in CAN_RE.finditer(p2)]
                     idx = [x.start() for x in CAN_RE.finditer(path)].index(m.start())
@@ -508,7 +625,10 @@ def site_table(shape: str, variants=None):
                 i = seen1.get(can, 0)
                 seen1[can] = i + 1
                 l2 = by2.get(can, [])
-                san = classify_sanitiser(src2 + "\0" * 16, l2[i]) if len(l2) == count1[can] else "unknown"
+                if can in rejected:
+                    san = "rejects"
+                else:
+                    san = classify_sanitiser(src2 + "\0" * 16, l2[i]) if len(l2) == count1[can] else "unknown"
                 if ctx == "FCODE":
                     ctx = "IDENT"
                 if ctx in ("DOC", "RDOC"):
@@ -521,7 +641,7 @@ def site_table(shape: str, variants=None):
                     raw_on_bs = len(l3) == count1[can] and l3[i] == "RDOC"
                     if b == '"' or a == '"' or ctx == "RDOC":
                         ctx = "unknown"
-                    elif san in ("snake", "pascal", "kebab", "upper_snake"):
+                    elif san in ("snake", "pascal", "kebab", "upper_snake", "sanitize", "rejects"):
                         ctx = "DOC"      # identifier images never contain a backslash: raw/cooked is immaterial
                     else:
                         ctx = "DOC" if raw_on_bs else "DOC_COOKED"
